@@ -141,6 +141,36 @@ func (t *Term) String() string {
 	return s
 }
 
+// StringLimit prints at most about n bytes of t without caching: merged values are DAGs whose full text is exponential.
+func (t *Term) StringLimit(n int) string {
+	var sb strings.Builder
+	var rec func(t *Term)
+	rec = func(t *Term) {
+		if sb.Len() > n {
+			return
+		}
+		if t.str != "" || t.Op == "const" || t.Op == "var" {
+			sb.WriteString(t.String())
+			return
+		}
+		sb.WriteByte('(')
+		sb.WriteString(strings.TrimPrefix(t.Op, "uf:"))
+		for _, a := range t.Args {
+			sb.WriteByte(' ')
+			rec(a)
+			if sb.Len() > n {
+				return
+			}
+		}
+		sb.WriteByte(')')
+	}
+	rec(t)
+	if sb.Len() > n {
+		return sb.String()[:n] + "..."
+	}
+	return sb.String()
+}
+
 func (t *Term) Vars() map[string]struct{} {
 	if t.vars != nil {
 		return t.vars
